@@ -172,7 +172,8 @@ pub fn encode_simple(g: &SimpleGlyph, enc: &Encoding) -> Result<(Vec<u8>, Simple
         return Err(EncodeError::TooLarge("contours"));
     }
     let pts: Vec<Pt> = contours.iter().flat_map(|c| c.iter().copied()).collect();
-    if pts.len() > 65535 {
+    // endPtsOfContours holds point indices up to 0xFFFF: 65536 points are the most a glyph can have
+    if pts.len() > 65536 {
         return Err(EncodeError::TooLarge("points"));
     }
     if g.instructions.len() > 65535 {
